@@ -23,7 +23,7 @@ func init() {
 		Rule: "seeded Failover/FailoverOf cases: 2..6 workers x 1..3 Gets over 1..3 keys (incl. xxhash64-colliding keys), entry state {absent,fresh,stale,too-stale}, config product {SyncUpdate,SyncRead,FailHard,MaxStaleness 0/1h,FailedUpdateTTL default/-1/1h}, " +
 			"builder outcome scripts, backend fault injection, caller misbehaviour after return; 7/8 run under the steered executor (one task at a time, seeded random/PCT/run-to-block choice at every call-out), 1/8 free-running with real parallelism and seeded delays; " +
 			"online monitor of builder [entry,exit] intervals per key; distinct_nontrivial = distinct (config, schedule signature) of runs in which >=2 Gets for a key were in flight while a builder for it was active",
-		Required:    []string{"runs.steered", "runs.free", "runs.contended", "family.observe_mutability", "builds", "bg.builds", "api.Failover", "api.FailoverOf"},
+		Required:    []string{"runs.steered", "runs.free", "runs.contended", "family.observe_mutability", "builds", "bg.builds", "api.Failover", "api.FailoverOf", "family.reused_build_context", "mass.drain_with_one_build_running"},
 		Assumptions: []string{"builder intervals are delimited by harness code (entry/exit events under one mutex)", "steered executor relies on runtime.Stack status strings; malfunction yields 'inconclusive', never a verdict"},
 		Timeout:     func(string) time.Duration { return 45 * time.Minute },
 	})
@@ -97,6 +97,19 @@ func runFoGeneric(b *Batch, prop string) {
 			c.CfgS = c.Cfg.String()
 			b.R.Count("family.observe_mutability", 1)
 		}
+		if prop == "C01" && i%12 == 2 {
+			// contexts kept from an earlier build of the key are used for later forced Gets: no context content may let a
+			// caller past the key lock
+			c.NKeys, c.Collide = 1, false
+			c.States = []string{[]string{"stale", "absent"}[rng.Intn(2)]}
+			c.Primed = []bool{false}
+			c.FaultAt = -1
+			c.Scripts = [][]getSpec{{{Key: 0}, {Key: 0, SkipRead: true, ReuseBuildCtx: true}}}
+			for w := 0; w < 2+rng.Intn(3); w++ {
+				c.Scripts = append(c.Scripts, []getSpec{{Key: 0, SkipRead: true, ReuseBuildCtx: true}, {Key: 0, SkipRead: rng.Intn(2) == 0, ReuseBuildCtx: true}})
+			}
+			b.R.Count("family.reused_build_context", 1)
+		}
 		if prop == "C01" && i%10 == 3 {
 			c.NilValues = true // builders that legitimately return a nil / zero value (values are not judged by C01)
 			b.R.Count("family.nil_values", 1)
@@ -142,6 +155,9 @@ func runFoGeneric(b *Batch, prop string) {
 		foJudge(b, i, prop, c)
 		collectGarbage(i)
 	}
+	if prop == "C01" && b.Index < 2 && !b.Skip(n+16*1000) {
+		c04Mass(b, "C01", n+16*1000, true, b.Index*2) // batch 0: Failover, batch 1: FailoverOf
+	}
 	if prop == "C04" {
 		nm := b.Pick(16, 320) / b.NBatches
 		if nm == 0 {
@@ -149,10 +165,10 @@ func runFoGeneric(b *Batch, prop string) {
 		}
 		for i := 0; i < nm; i++ {
 			if !b.Skip(n + i) {
-				c04Mass(b, n+i, false)
+				c04Mass(b, "C04", n+i, false, -1)
 			}
 			if i == 0 && b.Index == 0 && !b.Skip(n+16*1000) {
-				c04Mass(b, n+16*1000, true) // the big variant, once per run
+				c04Mass(b, "C04", n+16*1000, true, -1) // the big variant, once per run
 			}
 			if !b.Skip(n + 1000 + i) {
 				c04RearmWindow(b, n+1000+i)
@@ -164,9 +180,12 @@ func runFoGeneric(b *Batch, prop string) {
 // c04Mass: mass expiration. Hundreds of distinct stale keys of one Failover are requested at once, so that hundreds of
 // background builds are in flight at the same moment (builders parked at a gate). After the gate opens and everything has
 // finished, no key lock may remain and every key must be buildable again.
-func c04Mass(b *Batch, idx int, huge bool) {
+func c04Mass(b *Batch, prop string, idx int, huge bool, pairing int) {
 	rng := rand.New(rand.NewSource(b.CaseSeed(idx)))
 	p := foPairings[rng.Intn(3)]
+	if pairing >= 0 {
+		p = foPairings[pairing]
+	}
 	n := 280 + rng.Intn(320)
 	if huge {
 		n = 10200 + rng.Intn(6000)
@@ -189,7 +208,7 @@ func c04Mass(b *Batch, idx int, huge bool) {
 	}
 	b.R.Eval()
 	fail := func(what, msg string) {
-		b.R.Violate(b, idx, "C04:"+p[0]+":mass:"+what, what+": "+msg+fmt.Sprintf(" [%s, %d keys]", cfg.String(), n), map[string]interface{}{"keys": n, "pairing": p})
+		b.R.Violate(b, idx, prop+":"+p[0]+":mass:"+what, what+": "+msg+fmt.Sprintf(" [%s, %d keys]", cfg.String(), n), map[string]interface{}{"keys": n, "pairing": p})
 	}
 	ran := make(chan struct{})
 	go func() {
@@ -218,7 +237,33 @@ func c04Mass(b *Batch, idx int, huge bool) {
 	b.R.Count("mass.runs", 1)
 	b.R.Count("mass.background_builds_in_flight_max", int64(inflight))
 	b.R.Nontrivial(fmt.Sprintf("mass/%s/%s/inflight>=%d", p[0], p[1], inflight/100*100))
-	close(r.gateBG)
+	if huge {
+		// the burst drains while one build (key 0) is still running; a forced Get of that key must wait for it, not build beside it
+		r.gate0 = make(chan struct{})
+		close(r.gateBG)
+		for dl := time.Now().Add(20 * time.Second); time.Now().Before(dl) && len(r.fo.LockedKeys()) > 1; {
+			time.Sleep(200 * time.Microsecond)
+		}
+		late := make(chan struct{})
+		go func() { r.doGet(3, getSpec{Key: 0, SkipRead: true}); close(late) }()
+		time.Sleep(20 * time.Millisecond)
+		close(r.gate0)
+		select {
+		case <-late:
+		case <-time.After(30 * time.Second):
+			fail("late-get-blocked", "forced Get of the key whose build outlived the burst never returned")
+			return
+		}
+		r.mu.Lock()
+		ov := append([]string(nil), r.overlaps...)
+		r.mu.Unlock()
+		b.R.Count("mass.drain_with_one_build_running", 1)
+		if len(ov) > 0 {
+			fail("overlap-after-drain", fmt.Sprintf("after %d simultaneous builds drained: %s", inflight, ov[0]))
+		}
+	} else {
+		close(r.gateBG)
+	}
 	for dl := time.Now().Add(10 * time.Second); time.Now().Before(dl); {
 		r.mu.Lock()
 		act := 0
@@ -236,7 +281,7 @@ func c04Mass(b *Batch, idx int, huge bool) {
 		return // later Gets of those keys would only wait for the watchdog
 	}
 	for _, e := range r.snapshotLog() {
-		if e.Kind == "get.ret" && (e.Err != "" || e.Val != stale[e.Key]) {
+		if e.Kind == "get.ret" && e.Task == 0 && (e.Err != "" || e.Val != stale[e.Key]) {
 			fail("stale-not-served", fmt.Sprintf("Get of key %d returned (%q,%q), want the stale value", e.Key, e.Val, e.Err))
 			break
 		}
